@@ -37,6 +37,7 @@ type c04Case struct {
 	Pool, Add, Sides, Thr int
 	GE                    bool
 	MaxPts, MaxDev        int
+	Second                *c04Case `json:",omitempty"` // pair: a second term of the same expression
 }
 
 func ip(i int) *int { return &i }
@@ -127,6 +128,39 @@ func c04Enumerate(tier string, seed int64, emit func(string, any)) {
 			for z := 1; z <= 3; z++ {
 				emit("chain", c04Case{Kind: "chain", Src: fmt.Sprintf("%dd%dd%d", x, y, z), X: x, Y: y, Z: z})
 				emit("chain", c04Case{Kind: "chain", Src: fmt.Sprintf("(%dd%d)d%d", x, y, z), X: x, Y: y, Z: z})
+			}
+		}
+	}
+	// pairs of terms in ONE expression: per-term state (keep / drop / min / max) must not leak into the neighbour
+	var pterms []c04Case
+	for _, t := range []c04Case{
+		{X: 1, Y: 3}, {X: 2, Y: 2}, {X: 2, Y: 3, Mode: 2, N: 1}, {X: 2, Y: 3, Mode: 1, N: 1}, {X: 3, Y: 2, Mode: 3, N: 1}, {X: 3, Y: 2, Mode: 4, N: 2},
+		{X: 1, Y: 4, Min: ip(3)}, {X: 1, Y: 4, Max: ip(2)}, {X: 2, Y: 3, Mode: 2, N: 1, Min: ip(2)}, {X: 2, Y: 3, Max: ip(1)},
+	} {
+		t.Kind = "common"
+		t.Src = numTxt(t.X) + "d" + numTxt(t.Y)
+		if t.Mode != 0 {
+			t.Src += modeNames[t.Mode][0] + numTxt(t.N)
+		}
+		if t.Min != nil {
+			t.Src += "min" + numTxt(*t.Min)
+		}
+		if t.Max != nil {
+			t.Src += "max" + numTxt(*t.Max)
+		}
+		pterms = append(pterms, t)
+	}
+	for _, a := range pterms {
+		for _, b := range pterms {
+			b := b
+			for _, join := range []string{" + ", " * 100 + "} {
+				c := a
+				c.Kind = "pair"
+				c.Src = a.Src + join + b.Src
+				c.Second = &b
+				c.N = a.N
+				c.Thr = len(join) // 3: sum, else weighted
+				emit("pairs", c)
 			}
 		}
 	}
@@ -373,7 +407,7 @@ func c04Run(raw json.RawMessage) harn.Result {
 	switch c.Kind {
 	case "common":
 		expectErr = c.X <= 0 || c.Y <= 0 || (c.Mode != 0 && c.N <= 0)
-	case "chain":
+	case "chain", "pair":
 		expectErr = false
 	case "coc":
 		expectErr = false // b0 = plain d100; negative counts: see below
@@ -436,7 +470,7 @@ func c04Run(raw json.RawMessage) harn.Result {
 				}
 			}
 			text = last.Text
-			if last.Ret != nil {
+			if last.Ret != nil && c.Kind != "pair" {
 				if v, ok := last.Ret.ReadInt(); !ok || v != got {
 					viol("C04:span-ret:"+c.Kind, fmt.Sprintf("detail span value %s differs from the result %d", last.Ret.ToString(), got))
 				}
@@ -460,6 +494,33 @@ func c04Run(raw json.RawMessage) harn.Result {
 				}
 			} else if w, _, _ := rules.Common(f, c.Mode, c.N, c.Min, c.Max); w != int(got) {
 				viol("C04:common", fmt.Sprintf("total %d but the rule gives %d", got, w))
+			}
+		case "pair":
+			if len(f) != c.X+c.Second.X {
+				viol("C04:dice-count:pair", fmt.Sprintf("%d dice rolled, expected %d", len(f), c.X+c.Second.X))
+				return
+			}
+			v1, _, _ := rules.Common(f[:c.X], c.Mode, c.N, c.Min, c.Max)
+			v2, _, _ := rules.Common(f[c.X:], c.Second.Mode, c.Second.N, c.Second.Min, c.Second.Max)
+			want := v1 + v2
+			if c.Thr != 3 {
+				want = v1*100 + v2
+			}
+			if want != int(got) {
+				viol("C04:pair", fmt.Sprintf("faces %v: %s gives %d and %s gives %d by the rules, total %d, got %d (state of one term leaking into the other?)", f, c.Src[:len(c.Src)-len(c.Second.Src)], v1, c.Second.Src, v2, want, got))
+				return
+			}
+			if len(spans) == 2 {
+				for i, sp := range spans {
+					ff, t := f[:c.X], c
+					if i == 1 {
+						ff, t = f[c.X:], *c.Second
+					}
+					tv, _, _ := rules.Common(ff, t.Mode, t.N, t.Min, t.Max)
+					if msg := checkCommonText(sp.Text, ff, t.Mode, t.N, t.Min, t.Max, tv); msg != "" && !(sp.Text == "" ) {
+						viol("C04:pair-text", fmt.Sprintf("term %d: %s", i+1, msg))
+					}
+				}
 			}
 		case "chain":
 			if len(f) < c.X {
@@ -611,7 +672,7 @@ func trunc(s string, n int) string {
 
 // c04FuncPath drives the exported Roll* functions over the same face space.
 func c04FuncPath(c c04Case, res *harn.Result, viol func(sig, what string)) {
-	if c.Kind == "chain" || (c.Kind == "coc" && c.N < 0) {
+	if c.Kind == "chain" || c.Kind == "pair" || (c.Kind == "coc" && c.N < 0) {
 		return
 	}
 	var faces []int
